@@ -225,11 +225,13 @@ package avfs
 
 // ReplacePart: the link target is spliced between Left and Right with the file system's Join; the
 // cursor is either reset to the volume (the caller must restart at the root) or moved just before
-// the first spliced part.
+// the first spliced part; in the second case everything before the spliced part - separator
+// included - is unchanged, which is what lets searchNode keep the directory it has reached.
 //@ func (*PathIterator).ReplacePart
 //@   requires piOnPart(pi) && pi.vfs != nil
 //@   ensures[C04] r0 ==> pi.end == pi.volumeNameLen
 //@   ensures[C04] !r0 ==> pi.end == pi.start - 1 && pi.start == old(pi.start) && pi.start < len(pi.path)
+//@   ensures[C04] !r0 ==> substr(pi.path, 0, pi.start) == substr(old(pi.path), 0, pi.start)
 //@   modifies pi.path, pi.end
 
 //@ func NewPathIterator
